@@ -16,9 +16,11 @@ def gen_affine(rnd, stratum=None):
     split without halo (subsampling); S4 multi-level split with halo;
     S5 coefficient 3/5/6 looped over the input rank."""
     if stratum is None:
-        stratum = rnd.choice(["S1", "S1", "S2", "S2", "S3", "S6", "S8", "S9"])
+        stratum = rnd.choice(["S1", "S1", "S2", "S2", "S3", "S6", "S8", "S9", "S10"])
     if stratum == "S9":
         return gen_affine2(rnd)
+    if stratum == "S10":
+        return gen_affine_out(rnd)
     dims = 1 if stratum in ("S4", "S5", "S6", "S7") else rnd.randint(1, 2)
     pairs = DIMS[:dims]
     if rnd.random() < 0.3:
@@ -239,3 +241,38 @@ def gen_affine2(rnd):
     spec = Spec(decl, [e], partitioning=({"O": parts} if parts else None),
                 loop_order={"O": lo}, tags=tags)
     return spec, ext, {"stratum": "S9", "tags": tags, "dims": []}
+
+
+def gen_affine_out(rnd):
+    """Stratum S10: the OUTPUT is reached through index math (transposed
+    convolution):  O[a*q + b*s] = I[q] * F[s]  (optionally a channel rank)."""
+    a, b = rnd.choice([1, 1, 2]), rnd.choice([1, 1, 2])
+    Q, S = rnd.randint(2, 7), rnd.randint(1, 4)
+    ext = {"Q": Q, "S": S, "W": a * (Q - 1) + b * (S - 1) + 1}
+    decl = {"I": ["Q"], "F": ["S"], "O": ["W"]}
+    i_idx, f_idx, o_idx = [[(1, "q")]], [[(1, "s")]], [[(a, "q"), (b, "s")]]
+    other = rnd.choice(["Q", "S"])
+    groups = [["W"], [other]]
+    tags = ["S10", "affine-output"]
+    if rnd.random() < 0.3:
+        ext["C"] = rnd.randint(1, 3)
+        decl["I"] = ["C", "Q"]
+        decl["F"] = ["C", "S"]
+        i_idx = [[(1, "c")]] + i_idx
+        f_idx = [[(1, "c")]] + f_idx
+        groups.append(["C"])
+        tags.append("channel")
+    facs = [Acc("I", i_idx), Acc("F", f_idx)]
+    rnd.shuffle(facs)
+    e = Einsum(Acc("O", o_idx), [Term("times", facs)])
+    parts = None
+    if rnd.random() < 0.35:
+        # the output rank split, the input rank following it
+        parts = {"W": ["uniform_shape(%d)" % rnd.randint(2, 5)], "Q": ["follow(W)"]}
+        groups = [g for g in groups if g not in (["W"], ["Q"], ["S"])]
+        groups += rnd.choice([[["W1", "W0"], ["S"]], [["W1", "Q0", "W0"]], [["W1", "W0"], ["Q0"]]])
+        tags.append("partitioned")
+    lo = interleave(rnd, groups, True)
+    spec = Spec(decl, [e], partitioning=({"O": parts} if parts else None), loop_order={"O": lo},
+                tags=tags)
+    return spec, ext, {"stratum": "S10", "tags": tags, "dims": []}
